@@ -22,7 +22,7 @@ from __future__ import annotations
 import ast
 from dataclasses import dataclass, field
 
-from . import AnalysisError
+from . import AnalysisError, ModelViolation
 from .grammar import NARY, _consts, _fold
 from .model import ClassInfo, NodeClass, resolve_handler
 from .rules import handler_summaries, node_fields
@@ -318,30 +318,59 @@ def _check_paren_if(model, mapper, table):
     s, enc, my = (("param", x) for x in params[1:])
     op = None
     seen = set()
-    for ps in pss:
-        if ps.term != "return" or len(ps.conds) != 1:
-            raise AnalysisError("parenthesize_if_needed: unexpected path")
-        _, pol, c = ps.conds[0]
-        if not (c[0] == "compare" and len(c[1]) == 1):
-            raise AnalysisError("parenthesize_if_needed: condition")
+    where = f"{mapper.module.relpath}:{mem.node.lineno}"
+
+    def norm_cmp(c):
+        """'enclosing OP my' for a comparison of the two precedences, else None"""
+        if not (isinstance(c, tuple) and c[0] == "compare" and len(c[1]) == 1):
+            return None
         cop, left, right = c[1][0], c[2], c[3][0]
-        # normalise to "enclosing OP my"
         if (left, right) == (enc, my):
-            norm = {"Gt": ">", "GtE": ">=", "Lt": "<", "LtE": "<="}.get(cop)
-        elif (left, right) == (my, enc):
-            norm = {"Lt": ">", "LtE": ">=", "Gt": "<", "GtE": "<="}.get(cop)
-        else:
-            norm = None
-        if norm is None:
-            raise AnalysisError("parenthesize_if_needed does not compare "
-                                "enclosing_prec with my_prec")
-        if not pol:
-            norm = {">": "<=", ">=": "<", "<": ">=", "<=": ">"}[norm]
-        if _wrapped(ps.retval, s):
+            return {"Gt": ">", "GtE": ">=", "Lt": "<", "LtE": "<="}.get(cop)
+        if (left, right) == (my, enc):
+            return {"Lt": ">", "LtE": ">=", "Gt": "<", "GtE": "<="}.get(cop)
+        return None
+
+    for ps in pss:
+        if ps.term != "return":
+            raise AnalysisError("parenthesize_if_needed: unexpected path")
+        norm = None
+        compound = False
+        for _, pol, c in ps.conds:
+            while isinstance(c, tuple) and c[0] == "unop" and c[1] == "Not":
+                c, pol = c[2], not pol
+            n = norm_cmp(c)
+            if n is not None:
+                norm = n if pol else {">": "<=", ">=": "<", "<": ">=",
+                                      "<=": ">"}[n]
+            elif isinstance(c, tuple) and c[0] == "boolop" and any(
+                    norm_cmp(x) for x in c[2]):
+                # (prec test) and/or (something else)
+                inner = [norm_cmp(x) for x in c[2] if norm_cmp(x)][0]
+                if c[1] == "And" and pol:
+                    norm = inner
+                elif c[1] == "Or" and not pol:
+                    norm = {">": "<=", ">=": "<", "<": ">=", "<=": ">"}[inner]
+                else:
+                    compound = True
+            else:
+                compound = True
+        if _wrapped(ps.retval, s) and norm in (">", ">="):
             op = norm
             seen.add("wrap")
-        elif ps.retval == s:
+        elif ps.retval == s and norm in ("<=", "<") and not compound:
             seen.add("bare")
+        elif ps.retval == s and (compound or norm is None):
+            raise ModelViolation(
+                "T/printer/parenthesize-if-needed", where,
+                f"{mapper.name}.parenthesize_if_needed returns the text bare on "
+                "a path that is not determined by 'enclosing precedence <= own "
+                "precedence' alone: a lower-precedence child can be printed "
+                "without parentheses depending on something else (e.g. the "
+                "rendered text)")
+        elif norm is None:
+            raise AnalysisError("parenthesize_if_needed does not compare "
+                                "enclosing_prec with my_prec")
         else:
             raise AnalysisError("parenthesize_if_needed returns something else")
     if seen != {"wrap", "bare"} or op not in (">", ">="):
@@ -384,29 +413,61 @@ def _check_helpers(model, mapper, table):
                             "**kwargs) for every element")
     mem, pss = _paths(model, mapper, "rec_with_force_parens_around")
     ex = ("param", mem.node.args.args[1].arg)
+    where = f"{mapper.module.relpath}:{mem.node.lineno}"
     seen = set()
+
+    def is_forced_test(c):
+        return (isinstance(c, tuple) and c[0] == "call" and c[1] == "isinstance"
+                and c[2][0] == ex
+                and c[2][1][0] == "call" and c[2][1][1] == "kwargs.pop"
+                and c[2][1][2][0] == ("const", "force_parens_around")
+                and c[2][1][2][1] == ("lit", "tuple", ()))
+
+    def forced_known(ps):
+        """True / False if the path's conditions determine the isinstance test,
+        None if the path can be taken with the child in the forced set *and*
+        with it outside"""
+        for _, pol, c in ps.conds:
+            while isinstance(c, tuple) and c[0] == "unop" and c[1] == "Not":
+                c, pol = c[2], not pol
+            if is_forced_test(c):
+                return pol
+            if isinstance(c, tuple) and c[0] == "boolop":
+                parts = c[2]
+                if c[1] == "And" and pol and any(is_forced_test(x) for x in parts):
+                    return True
+                if c[1] == "Or" and not pol and any(is_forced_test(x)
+                                                    for x in parts):
+                    return False
+        return None
+
     for ps in pss:
-        if ps.term != "return" or len(ps.conds) != 1:
+        if ps.term != "return":
             raise AnalysisError("rec_with_force_parens_around: unexpected path")
-        _, pol, c = ps.conds[0]
-        good_c = (c[0] == "call" and c[1] == "isinstance" and c[2][0] == ex
-                  and c[2][1][0] == "call" and c[2][1][1] == "kwargs.pop"
-                  and c[2][1][2][0] == ("const", "force_parens_around")
-                  and c[2][1][2][1] == ("lit", "tuple", ()))
         recs = [e for e in ps.events if e.kind == "rec"]
         pops = [e for e in ps.events if e.name == "kwargs.pop"]
         good_r = (len(recs) == 1 and recs[0].args == (ex,) and recs[0].fwd_args
                   and recs[0].fwd_kwargs and pops
                   and ps.events.index(pops[0]) < ps.events.index(recs[0]))
         inner = ("rec", ex, True, ())
-        if not (good_c and good_r):
+        if not good_r:
             raise AnalysisError("rec_with_force_parens_around: does not pop "
                                 "force_parens_around, recurse with the same "
                                 "arguments and test isinstance")
-        if pol and _wrapped(ps.retval, inner):
+        forced = forced_known(ps)
+        if _wrapped(ps.retval, inner) and forced is True:
             seen.add("wrap")
-        elif not pol and ps.retval == inner:
+        elif ps.retval == inner and forced is False:
             seen.add("bare")
+        elif ps.retval == inner and forced in (None, True):
+            raise ModelViolation(
+                "T/printer/forced-parens-unconditional", where,
+                f"{mapper.name}.rec_with_force_parens_around returns the child's "
+                "text without parentheses on a path on which the child may "
+                "belong to force_parens_around (the parentheses depend on "
+                "something else than the child's class, e.g. on the rendered "
+                "text): '(a + b)*(c + d)' starts and ends with a parenthesis "
+                "without being enclosed, so x/((a+b)*(c+d)) loses its grouping")
         else:
             raise AnalysisError("rec_with_force_parens_around: wrong result on "
                                 "a branch")
